@@ -1,4 +1,307 @@
-use vsexp::{Lst, Sexp};
-pub fn run(_c: &Sexp) -> Sexp {
-    Lst(vec![])
+//! C10 — async derived values and resources settle on the latest inputs.
+//!
+//! case `(shape wrap dep initial events)`: one `ArcAsyncDerived` (or arena `AsyncDerived`) over
+//! three input signals, whose fetch futures are completed by the history; optionally an `Effect`
+//! that reads it (a dependent) and hand-polled awaiters. Shapes and events are documented in
+//! coq/theories/Reactive/AsyncRun.v.
+use crate::exec;
+use futures::channel::oneshot;
+use reactive_graph::{
+    computed::{ArcAsyncDerived, ArcMemo, AsyncDerived},
+    effect::Effect,
+    graph::{Source, ToAnySubscriber},
+    owner::Owner,
+    signal::ArcRwSignal,
+    traits::{Get, GetUntracked, Notify, Set, Update, WithUntracked, Write},
+};
+use std::{
+    cell::RefCell,
+    future::{Future, IntoFuture},
+    pin::Pin,
+    sync::{
+        atomic::{AtomicUsize, Ordering},
+        Arc, Mutex,
+    },
+    task::{Context, Poll, Wake, Waker},
+};
+use vsexp::{Lst, Num, Sexp};
+
+/// the fetcher: a fixed injective-enough function of the two inputs
+fn fetch(a: i64, b: i64) -> i64 {
+    a * 1000 + b
+}
+
+thread_local! {
+    /// senders of the fetch futures, in creation order
+    static FUTS: RefCell<Vec<Option<oneshot::Sender<()>>>> = RefCell::new(vec![]);
+    static DEPLOG: RefCell<Vec<Sexp>> = RefCell::new(vec![]);
+}
+
+fn mk_fut(r: i64) -> impl Future<Output = i64> + Send + 'static {
+    let (tx, rx) = oneshot::channel::<()>();
+    FUTS.with(|f| f.borrow_mut().push(Some(tx)));
+    async move {
+        let _ = rx.await;
+        r
+    }
+}
+
+#[derive(Clone)]
+enum Node {
+    Arc(ArcAsyncDerived<i64>),
+    Arena(AsyncDerived<i64>),
+}
+
+impl Node {
+    fn get_untracked(&self) -> Option<i64> {
+        match self {
+            Node::Arc(n) => n.get_untracked(),
+            Node::Arena(n) => n.get_untracked(),
+        }
+    }
+    fn get(&self) -> Option<i64> {
+        match self {
+            Node::Arc(n) => n.get(),
+            Node::Arena(n) => n.get(),
+        }
+    }
+    fn set(&self, v: i64) {
+        match self {
+            Node::Arc(n) => *n.write() = Some(v),
+            Node::Arena(n) => *n.write() = Some(v),
+        }
+    }
+    fn notify(&self) {
+        match self {
+            Node::Arc(n) => n.notify(),
+            Node::Arena(n) => n.notify(),
+        }
+    }
+    fn awaiter(&self) -> Pin<Box<dyn Future<Output = i64>>> {
+        match self {
+            Node::Arc(n) => Box::pin(n.clone().into_future()),
+            Node::Arena(n) => Box::pin(n.into_future()),
+        }
+    }
+    fn loading(&self) -> bool {
+        // `ready()` resolves exactly when the loading flag is off
+        let mut f = match self {
+            Node::Arc(n) => n.ready(),
+            Node::Arena(n) => n.ready(),
+        };
+        let w = Waker::from(Arc::new(Count(AtomicUsize::new(0))));
+        let mut cx = Context::from_waker(&w);
+        Pin::new(&mut f).poll(&mut cx).is_pending()
+    }
+}
+
+struct Count(AtomicUsize);
+impl Wake for Count {
+    fn wake(self: Arc<Self>) {
+        self.0.fetch_add(1, Ordering::SeqCst);
+    }
+    fn wake_by_ref(self: &Arc<Self>) {
+        self.0.fetch_add(1, Ordering::SeqCst);
+    }
+}
+
+struct Awaiter {
+    fut: Option<Pin<Box<dyn Future<Output = i64>>>>,
+    wakes: Arc<Count>,
+    result: Option<i64>,
+}
+
+fn opt(v: Option<i64>) -> Sexp {
+    match v {
+        None => Lst(vec![]),
+        Some(x) => Lst(vec![Num(x)]),
+    }
+}
+
+pub fn run(c: &Sexp) -> Sexp {
+    exec::reset();
+    FUTS.with(|f| f.borrow_mut().clear());
+    DEPLOG.with(|f| f.borrow_mut().clear());
+    let owner = Owner::new();
+    let out = owner.with(|| run_in(c));
+    exec::reset();
+    FUTS.with(|f| f.borrow_mut().clear());
+    drop(owner);
+    out
+}
+
+fn run_in(c: &Sexp) -> Sexp {
+    let shape = c.at(0).num();
+    let wrap = c.at(1).num();
+    let dep = c.at(2).num() != 0;
+    let dep_memo = c.at(2).num() == 2;
+    let initial = c.at(3).list().first().map(|x| x.num());
+    let sigs: Vec<ArcRwSignal<i64>> = (0..3).map(|_| ArcRwSignal::new(0)).collect();
+    let refetch = ArcRwSignal::new(0i64);
+    let (s0, s1) = (sigs[0].clone(), sigs[1].clone());
+    let node = match shape {
+        0 => {
+            let f = move || mk_fut(fetch(s0.get(), s1.get()));
+            if wrap == 1 {
+                Node::Arena(AsyncDerived::new(f))
+            } else {
+                Node::Arc(ArcAsyncDerived::new(f))
+            }
+        }
+        1 => {
+            let ma = ArcMemo::new(move |_| s0.get().div_euclid(2));
+            let mb = ArcMemo::new(move |_| s1.get());
+            let f = move || mk_fut(fetch(ma.get(), mb.get()));
+            if wrap == 1 {
+                Node::Arena(AsyncDerived::new(f))
+            } else {
+                Node::Arc(ArcAsyncDerived::new(f))
+            }
+        }
+        2 => {
+            // m3 depends on m2 and is read first
+            let m2 = ArcMemo::new(move |_| s0.get() * 10);
+            let m2b = m2.clone();
+            let m3 = ArcMemo::new(move |_| if m2b.get() > 25 { 1 } else { 0 });
+            let f = move || mk_fut(fetch(m3.get(), m2.get()));
+            if wrap == 1 {
+                Node::Arena(AsyncDerived::new(f))
+            } else {
+                Node::Arc(ArcAsyncDerived::new(f))
+            }
+        }
+        _ => {
+            // what ArcResource::new_with_options builds: a memo over (refetch counter, source),
+            // tracked by hand; the fetcher reads it untracked
+            let rf = refetch.clone();
+            let src = ArcMemo::new(move |_| (rf.get(), s0.get().div_euclid(2)));
+            let src2 = src.clone();
+            let f = move || {
+                let (_, x) = src2.get();
+                mk_fut(fetch(x, 0))
+            };
+            let data = ArcAsyncDerived::new_with_manual_dependencies(initial, f, &src);
+            if initial.is_some() {
+                src.with_untracked(|_| ());
+                src.add_subscriber(data.to_any_subscriber());
+            }
+            Node::Arc(data)
+        }
+    };
+    assert_eq!(exec::spawned(), 1, "the node spawns one task");
+    if dep {
+        let n = node.clone();
+        let s2 = sigs[2].clone();
+        // dep = 2: the dependent also reads a memo over the third signal, so it can be woken
+        // by a mere check and then asks the node whether it changed
+        let mt = ArcMemo::new(move |_| s2.get().div_euclid(2));
+        let _e = Effect::new(move |_| {
+            let v = n.get();
+            if dep_memo {
+                let _ = mt.get();
+            }
+            DEPLOG.with(|l| l.borrow_mut().push(opt(v)));
+        });
+        assert_eq!(exec::spawned(), 2, "the dependent effect spawns one task");
+    }
+    let mut awaiters: Vec<Awaiter> = vec![];
+    let obs = |awaiters: &Vec<Awaiter>| -> Sexp {
+        let aw = awaiters
+            .iter()
+            .map(|a| match a.result {
+                Some(v) => Lst(vec![Num(1), Num(v)]),
+                None => Lst(vec![Num(0), Num(a.wakes.0.load(Ordering::SeqCst) as i64)]),
+            })
+            .collect();
+        Lst(vec![
+            opt(node.get_untracked()),
+            Sexp::bool(node.loading()),
+            Sexp::from_nums(exec::ready().into_iter().map(|x| x as i64)),
+            Lst(aw),
+            Lst(DEPLOG.with(|l| std::mem::take(&mut *l.borrow_mut()))),
+            Num(FUTS.with(|f| f.borrow().len()) as i64),
+        ])
+    };
+    let poll_awaiter = |a: &mut Awaiter| {
+        if let Some(f) = a.fut.as_mut() {
+            let w = Waker::from(a.wakes.clone());
+            let mut cx = Context::from_waker(&w);
+            if let Poll::Ready(v) = f.as_mut().poll(&mut cx) {
+                a.result = Some(v);
+                a.fut = None;
+            }
+        }
+    };
+    let complete = |i: usize| {
+        let tx = FUTS.with(|f| f.borrow_mut().get_mut(i).and_then(|t| t.take()));
+        if let Some(tx) = tx {
+            let _ = tx.send(());
+        }
+    };
+    let mut out = vec![obs(&awaiters)];
+    for ev in c.at(4).list() {
+        let a = ev.at(1).num();
+        match ev.at(0).num() {
+            0 => {
+                if let Some(s) = sigs.get(a as usize) {
+                    s.set(ev.at(2).num());
+                }
+            }
+            1 => refetch.update(|n| *n += 1),
+            2 => node.set(a),
+            3 => node.notify(),
+            4 => {
+                if a >= 0 {
+                    complete(a as usize)
+                }
+            }
+            5 => {
+                if a >= 0 && (a as usize) < exec::spawned() {
+                    exec::poll(a as usize);
+                }
+            }
+            6 => {
+                exec::run_all(&ev.at(1).nums(), 100_000);
+            }
+            7 => awaiters.push(Awaiter {
+                fut: Some(node.awaiter()),
+                wakes: Arc::new(Count(AtomicUsize::new(0))),
+                result: None,
+            }),
+            8 => {
+                if let Some(aw) = awaiters.get_mut(a as usize) {
+                    poll_awaiter(aw);
+                }
+            }
+            _ => {}
+        }
+        out.push(obs(&awaiters));
+    }
+    // end of the case: every future completes, the executor runs until idle, every awaiter
+    // that is still pending is polled once more
+    let n = FUTS.with(|f| f.borrow().len());
+    for i in 0..n {
+        complete(i);
+    }
+    loop {
+        exec::run_all(&[], 100_000);
+        let n2 = FUTS.with(|f| f.borrow().len());
+        let mut any = false;
+        for i in 0..n2 {
+            let open = FUTS.with(|f| f.borrow()[i].is_some());
+            if open {
+                complete(i);
+                any = true;
+            }
+        }
+        if !any {
+            break;
+        }
+    }
+    for aw in awaiters.iter_mut() {
+        poll_awaiter(aw);
+    }
+    out.push(obs(&awaiters));
+    let _ = Mutex::new(());
+    Lst(out)
 }
